@@ -3,11 +3,14 @@ package main
 import (
 	"encoding/json"
 	"fmt"
+	"math/rand"
 	"os"
+	"strings"
 	"regexp"
 	"strconv"
 	"verif/ast"
 	"verif/gen"
+	"verif/mut"
 	"verif/ref/sem"
 	"verif/ref/typing"
 	"verif/sup"
@@ -192,3 +195,70 @@ func devShape(pool *sup.Pool, args []string) int {
 }
 
 func init() { devCmds["shape"] = devShape }
+
+func devRunFile(pool *sup.Pool, args []string) int {
+	b, _ := os.ReadFile(args[0])
+	var jobs []sup.Job
+	for _, m := range []string{"async", "sync", "np"} {
+		jobs = append(jobs, sup.Job{Kind: "run", Text: string(b), Mode: m, EventBudget: 2000000})
+	}
+	for _, o := range pool.Run(jobs, nil) {
+		if o.Res == nil || o.Res.Run == nil {
+			fmt.Println(o.Job.Mode, "no run", o.Died(), o.Res)
+			continue
+		}
+		r := o.Res.Run
+		fmt.Printf("%s prints=%v live=%d dups=%d sameIdent=%d\n", o.Job.Mode, r.Stdout, len(r.Live), r.Dups, r.DupSameIdent)
+	}
+	return 0
+}
+
+func init() { devCmds["runfile"] = devRunFile }
+
+func devIdent(pool *sup.Pool, args []string) int {
+	var jobs []sup.Job
+	r := rand.New(rand.NewSource(5))
+	for i := 0; i < 300; i++ {
+		o := gen.Opt{MaxSplit: 4, Pol: 0, Alias: 35, ExplicitSelf: 15, ExplicitProv: 20, Exec: 10, Print: 14, TopMax: 3, Fuel: 3, MultiProv: 35, Drop: 15, Split: 28, Mixed: i%4 == 0, MainMode: []ast.Mode{ast.Rep, ast.Mul, ast.Rep, ast.Lin}[i%4]}
+		p, _, _ := gen.Generate(int64(i)*17+3, &o)
+		q, _ := mut.Rename(p, r, true)
+		if typing.Check(q).Kind != typing.Accept {
+			continue
+		}
+		jobs = append(jobs, sup.Job{Kind: "run", Text: q.Text(), Mode: "async", EventBudget: 2000000})
+	}
+	d, s := 0, 0
+	shown := false
+	hist := map[string]int{}
+	defer func() { fmt.Println(hist) }()
+	for _, o := range pool.Run(jobs, nil) {
+		if o.Res != nil && o.Res.Run != nil {
+			d += o.Res.Run.Dups
+			s += o.Res.Run.DupSameIdent
+			for k, v := range o.Res.Run.Kinds {
+				if strings.HasPrefix(k, "dup-with") {
+					hist[k] += v
+				}
+			}
+			if o.Res.Run.Kinds["dup-with-2-free-names"] > 0 && len(args) > 0 && !shown {
+				shown = true
+				fmt.Println(o.Job.Text)
+			}
+		}
+	}
+	fmt.Println("programs", len(jobs), "dups", d, "same-ident dups", s)
+	return 0
+}
+
+func init() { devCmds["ident"] = devIdent }
+
+func devRenamed(pool *sup.Pool, args []string) int {
+	r := rand.New(rand.NewSource(5))
+	o := gen.Opt{MaxSplit: 4, Pol: 0, Alias: 35, ExplicitSelf: 15, ExplicitProv: 20, Exec: 10, Print: 14, TopMax: 3, Fuel: 3, MultiProv: 35, Drop: 15, Split: 28, MainMode: ast.Rep}
+	p, _, _ := gen.Generate(37, &o)
+	q, _ := mut.Rename(p, r, true)
+	fmt.Println(q.Text())
+	return 0
+}
+
+func init() { devCmds["renamed"] = devRenamed }
